@@ -60,10 +60,14 @@ VARIABLES
   \* ---- ghosts / observer
   wtrue,    \* true number of write commands whose data has not been taken (what w_buffer_level should hold)
   nwd,      \* write data beats taken by the memory
-  now, obs, bad
+  now, obs, bad,
+  nrr,      \* R beats received by the master
+  io        \* the environment's free choices of the last tick (only for stimulus extraction; not part of VIEW)
 
 vars == <<awb, wbc, wfi, wfo, idq, rsq, wlvl, arb, rbc, rfi, rfo, rlvl, ridq, gr, wlen, rlen, awn, awv, awt0, wb, wi, wv, nbr,
-          arn, arv, art0, mq, mem, wtrue, nwd, now, obs, bad>>
+          arn, arv, art0, mq, mem, wtrue, nwd, now, obs, bad, nrr, io>>
+View == <<awb, wbc, wfi, wfo, idq, rsq, wlvl, arb, rbc, rfi, rfo, rlvl, ridq, gr, wlen, rlen, awn, awv, awt0, wb, wi, wv, nbr,
+          arn, arv, art0, mq, mem, wtrue, nwd, now, obs, bad, nrr>>
 
 Init ==
   /\ awb = 0 /\ wbc = 0 /\ wfi = <<>> /\ wfo = 0 /\ idq = <<>> /\ rsq = <<>> /\ wlvl = 0
@@ -71,7 +75,8 @@ Init ==
   /\ wlen \in [1 .. NW -> 0 .. MaxLen] /\ rlen \in [1 .. NR -> 0 .. MaxLen]
   /\ awn = 0 /\ awv = FALSE /\ awt0 = 0 /\ wb = 1 /\ wi = 0 /\ wv = FALSE /\ nbr = 0 /\ arn = 0 /\ arv = FALSE /\ art0 = 0
   /\ mq = <<>> /\ mem = [a \in 0 .. NWords - 1 |-> 0]
-  /\ wtrue = 0 /\ nwd = 0 /\ now = 1 /\ bad = {}
+  /\ wtrue = 0 /\ nwd = 0 /\ now = 1 /\ bad = {} /\ nrr = 0
+  /\ io = [cmdrdy |-> FALSE, bready |-> FALSE, rready |-> FALSE, pulse |-> FALSE]
   /\ obs = [R!InitAxi(OCfg) EXCEPT !.init = [a \in 0 .. NWords - 1 |-> <<0>>]]
 
 BeatsBefore(b) == LET RECURSIVE S(_)
@@ -218,6 +223,8 @@ Tick(cmdrdy, bready, rready, pulse) ==
          /\ mq' = IF cmd_acc THEN Append(mq2, newcmd) ELSE mq2
          /\ mem' = IF pw /\ wd_valid THEN [mem EXCEPT ![hd.a] = wfo] ELSE mem
          /\ nwd' = nwd + (IF pw /\ wd_valid THEN 1 ELSE 0)
+         /\ nrr' = nrr + (IF r_hs THEN 1 ELSE 0)
+         /\ io' = [cmdrdy |-> cmdrdy, bready |-> bready, rready |-> rready, pulse |-> pulse]
          \* ---------------------------------------------------------------------- observer
          /\ now' = IF anyev THEN now + 1 ELSE now
          /\ obs' = o.s
